@@ -708,7 +708,7 @@ func defaultBudgetFamily(spaces []*space, ts *typedSpace) vlib.Family {
 				return false
 			}
 			if c.typed {
-				for i := int64(0); i < ts.n; i++ {
+				for i := int64(0); i < ts.n && i < 8000; i++ {
 					if try(ts.contents(i)) {
 						return
 					}
@@ -716,8 +716,8 @@ func defaultBudgetFamily(spaces []*space, ts *typedSpace) vlib.Family {
 			} else {
 				for _, sp := range spaces {
 					lim := sp.n
-					if lim > 200000 {
-						lim = 200000
+					if lim > 20000 {
+						lim = 20000
 					}
 					for i := int64(0); i < lim; i++ {
 						if try(sp.contents(i)) {
